@@ -17,6 +17,7 @@ THEOREMS = [
     "Mpir.Powm.binvert_correct",
     "Mpir.Powm.n_pow_ui_spec",
     "Mpir.Powm.powm_ui_spec",
+    "Mpir.Powm.powmSpec_char",
 ]
 TRUSTED = ["hand-written models lean/Mpir/Model/Powm.lean (tied by correspondence on every run): mpz_powm follows mpz/powm.c "
            "statement by statement with the result kept as limb vector + size; mpn_powm/powlo/pow_1/n_pow_ui/powm_ui follow the C "
@@ -121,7 +122,10 @@ def moduli(rng, tier, T):
     for _ in range(4):
         p = odd_n(rng, 1) ; q = odd_n(rng, rng.choice([1, 2]))
         out.append(("sq", p * p * q)); out.append(("sqeven", (p * p * q) << rng.choice([1, 5, 64, 70])))
+        RADICAL[out[-2][1]] = p * q; RADICAL[out[-1][1]] = p * q
     return out
+
+RADICAL = {}   # modulus with a square factor -> p*q with (p*q)^2 = 0 mod odd part: reaches the value m before the final subtraction
 
 def bases_for(rng, m, modd):
     n = (m.bit_length() + 63) // 64
@@ -172,6 +176,11 @@ def gen_ops(rng, tier, ctx=None):
             modd = m
             while modd % 2 == 0: modd //= 2
             bs = bases_for(rng, m, modd)
+            if m in RADICAL:
+                r = RADICAL[m]
+                for b in (r, -r, r * (2 * rng.getrandbits(20) + 1), r + m, 2 * r):
+                    for e in (2, 3, 4, 5, 64, 65, rng.choice(E[4:])):
+                        yield "mpz_powm %d %s %s %s" % (rng.choice([0, 1, 2, 3]), hx(b), hx(e), hx(rng.choice([m, -m])))
             # every base with a few exponents, every exponent with a few bases
             for b in bs:
                 for e in [0, 1, 2, rng.choice(E), rng.choice(E), exp_bits(rng, rng.choice([3, 64, 65, 100, 130]))]:
